@@ -1306,6 +1306,18 @@ def r20_ownership_edges(facts):
                 c.check(not ws["collections"], "retained:%s.%s" % (d, f["name"]), where,
                         "single array slot (%s)" % f["ty"],
                         "%s.%s can retain an unbounded collection of arrays (%s)" % (d, f["name"], f["ty"]))
+    # (f) no static / thread-local can hold arrays (it would outlive every handle)
+    n_static = 0
+    for it in facts.items:
+        if it.get("kind") == "static" or (it.get("kind", "").startswith("other") and "ty" in it):
+            n_static += 1
+            t = it.get("ty", "")
+            where = "%s:%d" % (F.rel(it["file"]), it["sp"][0])
+            if ARRAY in t:
+                c.bad("static:%s" % it["def"].split("::{")[0], where, "static / thread-local `%s` of type %s can retain arrays beyond the life of every handle" % (it["def"].split("::")[-1], t[:120]))
+            else:
+                c.ok("static:%s" % it["def"].split("::{")[0], where, "static of type %s holds no arrays" % t[:80], nontrivial=False)
+    c.count("static items examined", n_static)
     # Model.output: one writer, whole-slot assignment
     for d, adt in facts.adts.items():
         for f in facts.adt_fields(d):
